@@ -808,11 +808,11 @@ def local_cases(draw, budget=14):
 
 N_SHARDS = 16
 # measured single-process CPU cost incl. generation (ms per case): stmt ~30, inherit ~13, modules ~30, local ~25
-SIZES = {  # stream -> (quick, thorough) cases per shard
-    "stmt": (350, 5000),
-    "inherit": (400, 6000),
-    "modules": (300, 4500),
-    "local": (450, 7000),
+SIZES = {  # stream -> (quick, thorough) cases per shard; thorough uses larger programs (~1.4x cost per case)
+    "stmt": (350, 3500),
+    "inherit": (400, 4500),
+    "modules": (300, 3000),
+    "local": (450, 4500),
 }
 
 
